@@ -210,7 +210,7 @@ pub fn case_strategy() -> BoxedStrategy<Case> {
         1 => any::<u16>().prop_map(Op::Remove),
         1 => any::<u16>().prop_map(Op::DropInThread),
     ];
-    (prop_oneof![Just(16u8), Just(32), Just(48), Just(64), Just(80), Just(112)], 0u8..10, any::<u128>(), proptest::collection::vec(op, 1..60))
+    (prop_oneof![Just(16u8), Just(32), Just(48), Just(64), Just(80), Just(112)], 0u8..12, any::<u128>(), proptest::collection::vec(op, 1..60))
         .prop_map(|(width, sel, raw, ops)| {
             let max: u128 = if width >= 112 { (1u128 << 112) - 1 } else { (1u128 << width) - 1 };
             let initial = match sel {
@@ -223,6 +223,12 @@ pub fn case_strategy() -> BoxedStrategy<Case> {
                 // "any initial value": also values that do not fit the configured width
                 7 => Some(raw | (max + 1)),
                 8 => Some(max + 1),
+                // just below a boundary of the LCT TOI field-width classes (16, 32, 48, 64, 80, 96 bits),
+                // so that the allocations cross into the next class
+                10 | 11 => {
+                    let bits = [16u32, 32, 48, 64, 80, 96][(raw % 6) as usize];
+                    Some(((1u128 << bits) - 1 - (raw >> 8) % 3) & max)
+                }
                 _ => Some(raw & max),
             };
             Case { width, initial, ops }
